@@ -19,7 +19,9 @@ class MachineryError(Exception):
 
 
 def java_cmd(module_path, cfg, metadir, workers=1, xss="64m", xmx="3g", extra=(), c1=False):
-    return ["java", "-Xss" + xss, "-Xmx" + xmx, "-XX:+UseSerialGC" if workers == 1 else "-XX:+UseParallelGC"] + (
+    jtmp = os.path.join(os.path.dirname(metadir), "jtmp")       # TLC unpacks its standard modules into java.io.tmpdir
+    os.makedirs(jtmp, exist_ok=True)
+    return ["java", "-Djava.io.tmpdir=" + jtmp, "-Xss" + xss, "-Xmx" + xmx, "-XX:+UseSerialGC" if workers == 1 else "-XX:+UseParallelGC"] + (
         ["-XX:TieredStopAtLevel=1"] if c1 else ["-XX:CICompilerCount=2"] if workers == 1 else []) + [
             "-DTLA-Library=" + LIB, "-cp", JARS, "tlc2.TLC", "-workers", str(workers), "-metadir", metadir,
             "-noGenerateSpecTE", "-config", cfg] + list(extra) + [module_path]
@@ -116,6 +118,7 @@ def _run_shard(args):
         out = p.stdout
         logs.append(out)
         shutil.rmtree(meta, ignore_errors=True)
+        shutil.rmtree(os.path.join(shard_dir, "jtmp"), ignore_errors=True)
         g, d = parse_stats(out)
         gen += g
         dist += d
@@ -213,6 +216,7 @@ def run_model(module, cfg=None, workers=NCPU, extra=(), timeout=3600, subdir="mc
         raise MachineryError("TLC timed out on %s after %ss" % (module, timeout)) from e
     out = p.stdout
     shutil.rmtree(os.path.join(base, "meta"), ignore_errors=True)
+    shutil.rmtree(os.path.join(base, "jtmp"), ignore_errors=True)
     with open(os.path.join(base, "tlc.log"), "w") as f:
         f.write(out)
     g, d = parse_stats(out)
